@@ -312,8 +312,18 @@ def main(argv=None):
     except Machinery as e:
         print("MACHINERY-FAILURE property=%s: %s" % (pid, e))
         return 2
-    except Exception:
+    except Exception as exc:
         traceback.print_exc()
+        # an exception raised INSIDE the library under test (innermost frame in <repo>/src) on inputs the check draws from the
+        # property's domain: the library answered a valid call with an error - a violation, not a failure of the machinery
+        tb = traceback.extract_tb(exc.__traceback__)
+        src = str(_build.REPO / "src")
+        if tb and tb[-1].filename.startswith(src) and not isinstance(exc, (MemoryError, KeyboardInterrupt)):
+            fn = next((f for f in reversed(tb) if not f.filename.startswith(src)), tb[-1])
+            ctx.violation("library-exception:%s" % tb[-1].name, "%s raised by %s (%s:%d) for a call made by the check at %s:%d" %
+                          (repr(exc)[:200], tb[-1].name, os.path.basename(tb[-1].filename), tb[-1].lineno, os.path.basename(fn.filename), fn.lineno),
+                          {"exception": repr(exc)[:300], "raised_at": "%s:%d" % (tb[-1].filename[len(src) + 1:], tb[-1].lineno)})
+            return ctx.finish()
         if ctx.violations:
             # the run was cut short by an unexpected exception, but it had already observed violations: report them
             print("NOTE property=%s: run aborted by an unexpected exception after %d violation(s); reporting those" % (pid, len(ctx.violations)))
